@@ -7,6 +7,9 @@ string of n characters of a fixed pattern, ``{"i": n}`` an n-digit int, scalars 
   A  all trees with <= N nodes (list / dict nodes with 1..3 children, depth <= 3) over a leaf alphabet
      holding one value of every type the property names; dict keys are inserted in non-sorted order;
      key schemes: str only (JSON + Python mode), str and int mixed (Python mode)
+     + the sharing variant of every tree in which a non-empty sub-container occurs twice: the equal
+     sub-containers are ONE object referenced repeatedly (also: every count-swept list of B3 twice in a list /
+     as two dict values, one object)
   B1 flat lists: all sequences of <= K elements over an element alphabet (short values of several
      types, strings rendered 48 / 100 / 153 characters wide) with ONE sweep element at every position,
      whose length takes every value that puts
@@ -70,6 +73,8 @@ ASSUMPTIONS = [
     "the no-color output is str(result) / str(line) (equal to plain_text() for a no-color palette); a colored "
     "rendering inside a history is judged on its visible text (plain_text()) only",
     "tuples and other non-JSON containers are outside the domain",
+    "the same container object may be referenced several times (shared, acyclic); self-containing structures are "
+    "outside the domain",
     "'sorted key order' is demanded within each key type (ints numerically, strings by code point); the relative "
     "placement of ints and strings is not demanded",
     "'wrapped over several lines' is read as: no output line exceeds 2 x 200 characters plus the longest single "
@@ -82,7 +87,7 @@ REQUIRED_FEATURES = [
     "thr200:199", "thr200:200", "thr200:201", "thr150:149", "thr150:150", "thr150:151",
     "sweep:list-element", "sweep:dict-value", "sweep:dict-key", "sweep:count",
     "elem:longer-than-line", "long:must-wrap", "scalar:special",
-    "printer:fresh-instance", "printer:module-level-pp", "printer-reuse:colored-then-no-color",
+    "shared:same-container-object-twice", "printer:fresh-instance", "printer:module-level-pp", "printer-reuse:colored-then-no-color",
     "printer-reuse:same-constant-colored-then-no-color", "printer-reuse:no-color-then-colored",
     "printer-reuse:same-kind-twice",
 ]
@@ -111,6 +116,43 @@ def build(spec):
             d[k] = build(v)
         return d
     return spec
+
+
+def build_shared(spec, memo=None):
+    """Like build(), but equal non-empty container sub-specs become ONE object referenced several times
+    (``d = {...}; [d, d]``): shared sub-objects are ordinary JSON-like data, not cycles."""
+    memo = {} if memo is None else memo
+    if isinstance(spec, list) or (isinstance(spec, dict) and "D" in spec):
+        key = json.dumps(spec, sort_keys=True)
+        if key in memo:
+            return memo[key]
+        if isinstance(spec, list):
+            obj = [build_shared(x, memo) for x in spec]
+        else:
+            obj = {}
+            for k, v in spec["D"]:
+                obj[k] = build_shared(v, memo)
+        if obj:
+            memo[key] = obj
+        return obj
+    return build(spec)
+
+
+def has_repeated_container(spec):
+    """Some non-empty container sub-spec occurs at least twice."""
+    seen = set()
+
+    def walk(x):
+        if isinstance(x, list) or (isinstance(x, dict) and "D" in x):
+            kids = x if isinstance(x, list) else [v for _, v in x["D"]]
+            if kids:
+                key = json.dumps(x, sort_keys=True)
+                if key in seen:
+                    return True
+                seen.add(key)
+            return any(walk(k) for k in kids)
+        return False
+    return walk(spec)
 
 
 def canon(v):
@@ -404,9 +446,9 @@ def observe(printer, obj, colored):
     return out
 
 
-def check_case(spec, mode, acc):
+def check_case(spec, mode, acc, shared=False):
     """Run one case; returns (violation-or-None, text, nlines)."""
-    obj = build(spec)
+    obj = build_shared(spec) if shared else build(spec)
     acc.trans(2)
     try:
         renderings = observe(_printer(mode), obj, False)
@@ -742,10 +784,16 @@ def _leaf_features(obj, feats):
     walk(obj, 0)
 
 
-def _one(acc, spec, mode, feats, nontrivial_hint=False, sample=False):
+def _one(acc, spec, mode, feats, nontrivial_hint=False, sample=False, shared=False):
     case = {"mode": mode, "spec": spec}
-    v, text, nlines = check_case(spec, mode, acc)
+    if shared:
+        case["shared"] = 1
+    v, text, nlines = check_case(spec, mode, acc, shared)
+    if v is not None and shared:
+        v = ("shared-object:" + v[0],) + v[1:]
     feats = set(feats)
+    if shared:
+        feats.add("shared:same-container-object-twice")
     feats.add("mode:json" if mode == "json" else "mode:python")
     if v is None:
         feats.add("out:one-line" if nlines == 1 else "out:multi-line")
@@ -779,6 +827,10 @@ def _run_A(shard, p, acc):
                 feats.add("nest:depth3")
             for mode in modes:
                 _one(acc, spec, mode, feats, sample=(idx % 977 == 0))
+            if has_repeated_container(spec):
+                # the sharing variant: every group of equal sub-containers is one object referenced repeatedly
+                for mode in modes:
+                    _one(acc, spec, mode, feats, shared=True)
             if idx % 512 == 0 and acc.expired():
                 return
 
@@ -899,6 +951,10 @@ def _run_B3(shard, p, acc):
             _leaf_features(X, feats)
             _thr_features(X, offset, feats, p["win200"], p["win150"])
             hit = 150 <= offset + rlen(X) <= 250
+            if not ctx:
+                for twice in ([xs, xs], {"D": [["b", xs], ["a", xs]]}):
+                    for mode in ("json", "py"):
+                        _one(acc, twice, mode, feats, nontrivial_hint=hit, shared=True)
             for mode in ("json", "py"):
                 nl = _one(acc, spec, mode, feats, nontrivial_hint=hit, sample=(m == 70))
                 if not ctx and nl >= 3:
@@ -972,7 +1028,9 @@ def replay(case, acc):
         _report(acc, v, case)
         acc.case()
         return
-    v, _, _ = check_case(case["spec"], case["mode"], acc)
+    v, _, _ = check_case(case["spec"], case["mode"], acc, bool(case.get("shared")))
+    if v is not None and case.get("shared"):
+        v = ("shared-object:" + v[0],) + v[1:]
     _report(acc, v, case)
     acc.case()
 
